@@ -97,6 +97,16 @@ func SmallOutbox() *ap.OrderedCollection {
 		OrderedItems: ap.ItemCollection{ap.IRI("https://example.com/activities/2"), &ap.Activity{ID: "https://example.com/activities/3", Type: ap.LikeType, Object: ap.IRI("https://example.com/notes/1")}}}
 }
 
+// Scalars is a small value made of scalar-typed properties; k selects different contents.
+func Scalars(k int) *ap.Object {
+	d := time.Duration(k) * time.Hour
+	return &ap.Object{ID: ap.IRI(fmt.Sprintf("https://example.com/s/%d", k)), Type: ap.VideoType, MediaType: ap.MimeType(fmt.Sprintf("video/x-%d", k)),
+		Published: t0.Add(d), Updated: t0.Add(2 * d), Duration: d + 90*time.Second,
+		InReplyTo: ap.IRIs{ap.IRI(fmt.Sprintf("https://example.com/r/%d", k)), ap.IRI(fmt.Sprintf("https://example.com/r/%d", k+10))},
+		URL:       &ap.Link{Type: ap.LinkType, Href: ap.IRI(fmt.Sprintf("https://example.com/v/%d.mp4", k)), HrefLang: ap.LangRef(fmt.Sprintf("l%d", k)), Width: uint(100 * k)},
+		Location:  &ap.Place{Type: ap.PlaceType, Units: fmt.Sprintf("unit%d", k), Latitude: float64(k) + 0.5}}
+}
+
 // Values are the shared values of the scenarios.
 func Values() map[string]func() ap.Item {
 	return map[string]func() ap.Item{
@@ -193,7 +203,7 @@ type Scenario struct {
 }
 
 // Count is the number of scenarios.
-const Count = 8
+const Count = 9
 
 type sizes struct {
 	note       func() *ap.Object
@@ -250,9 +260,14 @@ func get(i int, z *sizes) Scenario {
 	case 6:
 		v := Outbox()
 		return mk("S6 Sprintf(outbox) || OnObject(outbox, read) || MarshalJSON(outbox)", []ap.Item{v}, Sprintf(v), OnObjectRead(v), MarshalJSON(v))
-	default:
+	case 7:
 		v := Create()
 		return mk("S7 MarshalJSON(create) || UnmarshalJSON(docA) || ItemsEqual(create, create)", []ap.Item{v}, MarshalJSON(v), UnmarshalJSON(docA), ItemsEqual(v, v))
+	default:
+		// two DIFFERENT values with scalar properties (instants, durations, string properties, IRI lists): a scratch area shared
+		// between the two encoders shows up as a result that differs from the sequential one
+		v, w := Scalars(1), Scalars(2)
+		return mk("S8 MarshalJSON(scalars1) || MarshalJSON(scalars2)", []ap.Item{v, w}, MarshalJSON(v), MarshalJSON(w))
 	}
 }
 
